@@ -334,6 +334,71 @@ fn run_c13(tr: &mut Trace, t: &Toks, sc: &Script, opts: &Opts) -> Res<()> {
     Ok(())
 }
 
+
+// ------------------------------------------------------------------ C12 scaled families
+/// ring / chain / sparse graph of size n (see SnapshotRT.tla FamEdges): node h has label A and i = h, every
+/// relationship has type R and w = 7; export, import into an empty store, abstract the imported graph to counts
+fn family_rt(kind: &str, n: i64) -> Value {
+    let mut s = GraphStore::new();
+    let nn = if kind == "ring" { n } else { n + 1 };
+    let mut ids = Vec::new();
+    for h in 1..=nn {
+        let id = s.create_node_with_labels([Label::new("A")]);
+        s.set_node_property("default", id, "i", PropertyValue::Integer(h)).expect("set i");
+        ids.push(id);
+    }
+    let mut rels = Vec::new();
+    for h in 1..=n {
+        let d = if kind == "ring" { h % n + 1 } else { h + 1 };
+        let props: samyama::graph::PropertyMap = [("w".to_string(), PropertyValue::Integer(7))].into_iter().collect();
+        rels.push((h, s.create_edge_with_properties(ids[h as usize - 1], ids[d as usize - 1], "R", props).expect("edge")));
+    }
+    if kind == "sparse" {
+        for (h, e) in &rels {
+            if ![1, n / 2, n].contains(h) {
+                s.delete_edge(*e).expect("delete");
+            }
+        }
+    }
+    let mut buf = Vec::new();
+    let mut imp = GraphStore::new();
+    let res = match catch(|| samyama::snapshot::export_tenant(&s, &mut buf).map(|_| ()).map_err(|e| e.to_string())) {
+        Ok(Ok(())) => import(&mut imp, &buf, &[]),
+        Ok(Err(_)) => "export-err",
+        Err(_) => "export-panic",
+    };
+    // abstraction of the imported store
+    let d = dump(&imp);
+    let mut handle: HashMap<u64, i64> = HashMap::new();
+    let (mut hs, mut labelled) = (Vec::new(), 0);
+    for nd in d["nodes"].as_array().unwrap() {
+        let h = nd["props"]["i"].as_str().and_then(|t| t.strip_prefix("i:")).and_then(|x| x.parse::<i64>().ok()).unwrap_or(0);
+        handle.insert(nd["id"].as_u64().unwrap(), h);
+        hs.push(h);
+        if nd["labels"] == json!(["A"]) && nd["props"].as_object().map(|o| o.len()) == Some(1) {
+            labelled += 1;
+        }
+    }
+    let total = hs.len();
+    let (min, max) = (hs.iter().min().copied().unwrap_or(0), hs.iter().max().copied().unwrap_or(0));
+    hs.sort();
+    hs.dedup();
+    let mut groups: BTreeMap<(i64, String, String), (i64, i64)> = BTreeMap::new();
+    for r in d["rels"].as_array().unwrap() {
+        let (a, b) = (handle[&r["src"].as_u64().unwrap()], handle[&r["dst"].as_u64().unwrap()]);
+        let off = (b + nn - a).rem_euclid(nn);
+        let e = groups.entry((off, r["type"].as_str().unwrap().to_string(), r["props"].to_string())).or_insert((0, 0));
+        e.0 += 1;
+        e.1 += a;
+    }
+    let groups: Vec<Value> = groups
+        .into_iter()
+        .map(|((off, ty, props), (count, srcsum))| json!({"off": off, "type": ty, "props": serde_json::from_str::<Value>(&props).unwrap(), "count": count, "srcsum": srcsum}))
+        .collect();
+    json!({"res": res, "obs": {"nodes": {"total": total, "distinct": hs.len(), "min": min, "max": max, "labelled": labelled}, "groups": groups,
+                               "nc": d["nc"], "ec": d["ec"]}})
+}
+
 // ------------------------------------------------------------------ C12
 fn run_c12(tr: &mut Trace, t: &Toks, sc: &Script) -> Res<()> {
     tr.reset(&sc.sid)?;
@@ -397,6 +462,7 @@ fn run_c12(tr: &mut Trace, t: &Toks, sc: &Script) -> Res<()> {
                     extra = json!({"res": "err"});
                 }
             }
+            "FamilyRT" => extra = family_rt(gs(step, "kind"), gi(step, "n")),
             "RoundTrip" => {
                 let mut buf = Vec::new();
                 let mut imp = GraphStore::new();
